@@ -2,6 +2,7 @@ package checks
 
 import (
 	"fmt"
+	"github.com/amzn/ion-go/ion"
 
 	"verif/internal/mc"
 	rm "verif/internal/refmodel"
@@ -9,7 +10,7 @@ import (
 
 // C01 — write-then-read round trip in all writer modes.
 func c01Body(c *mc.Ctx) {
-	mode := c.Pick("mode", 4)
+	mode := c.Pick("mode", 6)
 	vals, class := genValues(c, c.Tier == "thorough")
 	c.Class(modeNames[mode] + "/" + class)
 	c.Case(func() string { return fmt.Sprintf("mode=%s values=%s", modeNames[mode], rm.StreamString(vals)) })
@@ -27,7 +28,11 @@ func c01Body(c *mc.Ctx) {
 		c.Skip("writer returned an error at " + failedCall)
 		return
 	}
-	got, rcalls, rerr, pan := readBack(out, nil)
+	var cat ion.Catalog
+	if mode >= 4 {
+		cat = ion.NewCatalog(genImport())
+	}
+	got, rcalls, rerr, pan := readBack(out, cat)
 	c.Step(rcalls)
 	if failPanic(c, pan) {
 		return
